@@ -111,7 +111,7 @@ Unexpired(t, target) == \/ (txs[t].mined # -1 /\ txs[t].mined < target)
                         \/ txs[t].minobs + ExpiryDelta >= target
 
 Counted(n, target) == /\ Unexpired(ninfo[n].t, target)
-                      /\ \A l \in links : l[1] = n => ~Unexpired(l[2], target)
+                      /\ \A lk \in links : lk[1] = n => ~Unexpired(lk[2], target)
 
 Sum(S) == FoldSet(LAMBDA n, acc : acc + ninfo[n].v, 0, S)
 
@@ -122,6 +122,6 @@ LedgerDust(p)   == Sum({ n \in CountedNotes(p) : ninfo[n].v <= Dust })
 \* structural invariants of the ledger itself
 TypeOK == /\ known \subseteq DOMAIN ninfo
           /\ \A n \in known : ninfo[n].t \in DOMAIN txs
-          /\ \A l \in links : l[1] \in known /\ l[2] \in DOMAIN txs
+          /\ \A lk \in links : lk[1] \in known /\ lk[2] \in DOMAIN txs
           /\ \A t \in DOMAIN txs : txs[t].mined = -1 \/ txs[t].minobs <= txs[t].mined
 =====================================================================================
